@@ -91,11 +91,11 @@ func check(c Case) ev.Verdict {
 	off := lib.Options{Neg: c.Neg, Esc: true}
 	want := ref.Apply(doc, ops, on.Ref())
 	got := lib.Apply(c.Doc, c.Patch, on)
-	if got.Panic != nil {
-		return ev.Verdict{Err: got.Panic}
-	}
 	if want.OutOfDomain() {
 		return ev.Excluded("out of domain: "+want.Res.Why, "ood")
+	}
+	if got.Panic != nil {
+		return ev.Verdict{Err: got.Panic}
 	}
 	if got.DecodeErr != nil {
 		return ev.Fail("DecodePatch rejected a valid patch: %v", got.DecodeErr)
